@@ -276,7 +276,29 @@ fn decoders(seed: u64) {
         let bok = match &bv { Ok(s) => (1, s.as_bytes() == v), Err(e) => (0, e.as_bytes() == v) };
         writeln!(out, "D lossy {} | {} | {}", hex(v), hex(bl.as_bytes()), hex(sl.as_bytes())).unwrap();
         writeln!(out, "D utf8 {} | {} {} | {}", hex(v), bok.0, bok.1 as u8, sv.is_ok() as u8).unwrap();
+        // the error value describes the failure as std's does, and gives the bytes back
+        if let (Err(be), Err(se)) = (&bv, &sv) {
+            let (bu, su) = (be.utf8_error(), se.utf8_error());
+            if bu.valid_up_to() != su.valid_up_to() || bu.error_len() != su.error_len() || format!("{}", be) != format!("{}", se) {
+                writeln!(out, "X from_utf8_error_differs input={} bump={}:{:?} std={}:{:?}", hex(v), bu.valid_up_to(), bu.error_len(), su.valid_up_to(), su.error_len()).unwrap();
+            }
+        }
+        if let Err(be) = bv {
+            if be.into_bytes().as_slice() != v { writeln!(out, "X from_utf8_error_into_bytes_differs input={}", hex(v)).unwrap(); }
+        }
     };
+    // long ASCII (and valid multi-byte) prefixes of every length 0..40 before an ill-formed or truncated tail
+    for pre in 0..40usize {
+        for tail in [&[0xFFu8][..], &[0xC3], &[0xE2, 0x82], &[0xF0, 0x9F, 0x98], &[0xED, 0xA0, 0x80], &[0x80], &[0xC3, 0xA9, 0xFF], &[]] {
+            let mut v: Vec<u8> = (0..pre).map(|i| b'a' + (i % 26) as u8).collect();
+            v.extend_from_slice(tail);
+            one(&v);
+            let mut w: Vec<u8> = "é€".as_bytes().to_vec();
+            w.extend_from_slice(&v);
+            w.push(b'z');
+            one(&w);
+        }
+    }
     // exhaustive: every byte string of length <= 2
     one(&[]);
     for a in 0..=255u8 {
